@@ -1262,6 +1262,7 @@ class WcParse(Generic[AnyStr]):
     def _handle_star(self, i: util.StringIter, current: list[str]) -> None:
         """Handle star."""
 
+        start = i.index
         if self.pathname:
             if self.after_start and not self.dot:
                 star = self.path_star_dot2
@@ -1344,6 +1345,9 @@ class WcParse(Generic[AnyStr]):
                 while c == '*':
                     c = next(i)
                 i.rewind(1)
+                # The last duplicate star belongs to an extended match pattern `*(...)`, so give it back.
+                if self.extend and c == '(' and i.index > start:
+                    i.rewind(1)
             except StopIteration:
                 pass
 
